@@ -8,6 +8,7 @@ import (
 	"sync/atomic"
 	"time"
 
+	"github.com/tikv/pd/pkg/tsoutil"
 	"github.com/tikv/pd/server/tso"
 
 	"pdverif/internal/cli"
@@ -173,9 +174,45 @@ func localGlobal(args map[string]string) error {
 		}
 		return uint32(1 + rng.Intn(maxGlobalCount))
 	}
+	// near the end the local clocks run far ahead (two admin resets of 20 h each), in one datacenter or in all of them:
+	// the global allocator cannot catch up (further than the allowed reset gap). With one datacenter ahead the other
+	// local allocators refuse the collected maximum; with all of them ahead the maximum is written everywhere and only
+	// the global allocator's own reset fails, so the request is retried after its second phase. Either way a global
+	// request must be refused, never answered with a value below the local timestamps handed out already.
+	skew := func() {
+		which := []string{dcs[rng.Intn(3)]}
+		if seed%2 == 1 {
+			which = dcs
+		}
+		for _, dc := range which {
+			p := holder(dc)
+			if p == nil {
+				continue
+			}
+			a, err := p.S.GetTSOAllocatorManager().GetAllocator(dc)
+			if err != nil {
+				continue
+			}
+			ok := true
+			for k := 0; k < 2 && ok; k++ {
+				cur, err := p.S.GetTSOAllocatorManager().HandleTSORequest(dc, 1)
+				if err != nil {
+					ok = false
+					break
+				}
+				ok = a.SetTSO(tsoutil.ComposeTS(cur.Physical+20*3600*1000, 0)) == nil
+			}
+			if ok {
+				w.Emit(trace.Ev{"ev": "skew", "dc": dc})
+			}
+		}
+	}
 	for r := 0; r < rounds; r++ {
 		if r == rounds/2 {
 			join()
+		}
+		if r == rounds*9/10 {
+			skew()
 		}
 		switch rng.Intn(10) {
 		case 0, 1, 2, 3, 4:
